@@ -185,7 +185,7 @@ def run_check(tier, seed):
     if not okm:
         es = coq_error_site(outm)
         broken.append({'kind': 'proof', 'theorem_or_lemma': es[2] if es else None, 'site': list(es[:2]) if es else None, 'message': es[3] if es else outm[-1500:]})
-    ok, out, bindir = cargo_build(['vfs'], features=['persist'])
+    ok, out, bindir = cargo_build(['vfs'], features=['persist', 'async-io'])
     if not ok:
         broken.append({'kind': 'harness-build', 'log': out[-3000:]})
         return finish(ev, PROP, findings, broken)
@@ -217,4 +217,4 @@ def run_check(tier, seed):
     return finish(ev, PROP, uniq, broken)
 
 def replay(path):
-    return replay_generic(PROP, path, features=['persist'])
+    return replay_generic(PROP, path, features=['persist', 'async-io'])
